@@ -235,6 +235,16 @@ impl ModelG {
                 if none {
                     let f = self.file(*g);
                     f[*dst as usize % NREG] = None;
+                } else if ss.iter().any(|s| s.k == 2) {
+                    // unreduced scalars are outside what C04 promises for the multiscalar entry points: the value is
+                    // not decided here (it is still logged, so configurations are compared on it), the handle dies
+                    o.any("enc");
+                    if *g == 0 {
+                        o.any("aff");
+                    }
+                    o.f("repr_ok", true);
+                    let f = self.file(*g);
+                    f[*dst as usize % NREG] = None;
                 } else {
                     let ks: Vec<Vec<u8>> = ss.iter().map(sc_int).collect();
                     self.set(*g, *dst, ed::multiscalar(&ks, &pts), &mut o);
@@ -978,6 +988,9 @@ impl RealG {
                         _ => tbl!(EdwardsBasepointTableRadix16),
                     };
                     o.b("tbl_base", bp.compress().as_bytes());
+                    if coords_affine(&bp).is_err() {
+                        o.f("table_basepoint_representation_invalid", true);
+                    }
                     o.b("tbl_clamped", cl.compress().as_bytes());
                     o.b("tbl_converted", conv.compress().as_bytes());
                     set_e!(*dst, r);
@@ -986,6 +999,9 @@ impl RealG {
                     let p = need_r!(*a);
                     let t = RistrettoBasepointTable::create(&p);
                     o.b("tbl_base", t.basepoint().compress().as_bytes());
+                    if coords_affine(&verif_hooks::ristretto_inner(&t.basepoint())).is_err() {
+                        o.f("table_basepoint_representation_invalid", true);
+                    }
                     let r1 = &t * &k;
                     let r2 = &k * &t;
                     if r1.compress() != r2.compress() {
